@@ -19,6 +19,15 @@ const BASES: &[Base] = &[
     Base { html: "<a href='u' HREF=v>l</a><br><!--c-->", target: "a", inner_textctx: true },
 ];
 
+/// a fixed small pool of adversarial argument strings (used by the robustness job)
+pub fn strings_small() -> Vec<String> {
+    let mut v: Vec<String> = SPECIALS.iter().map(|s| s.to_string()).collect();
+    for a in SYMS { v.push(a.to_string()); }
+    v.extend(["", "x", "data-x", "a b", "é", "\u{10FFFF}", "𝒳", "a\u{0}b"].iter().map(|s| s.to_string()));
+    v.push("y".repeat(5000));
+    v
+}
+
 pub fn strings(rng: &mut Rng, quick: bool) -> Vec<String> {
     let mut v: Vec<String> = Vec::new();
     for a in SYMS { v.push(a.to_string()); for b in SYMS { v.push(format!("{a}{b}")); for c in SYMS { v.push(format!("{a}{b}{c}")); } } }
